@@ -155,7 +155,7 @@ def explore(tier, seed):
     from . import c11a
 
     sched_outcomes = 0
-    for drv, gran in (("semgrep-detected", "line"), ("detector-less", "coarse"), ("sonar", "coarse")):
+    for drv, gran in (("semgrep-detected", "line"), ("detector-less", "coarse"), ("sonar", "line")):
         r = c11a.explore_cached(drv, gran, 1)
         before = {k: v for k, v in r["files"].items()}
         for h, detail in sorted(r["details"].items()):
